@@ -3,7 +3,8 @@
    the doc comments of the operations; [abs f] = the typed lists of f without cleared
    entries.  Proofs: Modfile/EditProofsTyped.v, EditProofsComments.v. *)
 From Verif.Base Require Import Bytes.
-From Verif.Modfile Require Import EditModel EditOps EditSpec EditProofsTyped EditProofsHeap EditProofsComments EditProofsSeq EditProofsBlocks.
+From Coq Require Import Permutation.
+From Verif.Modfile Require Import EditModel EditOps EditSpec EditProofsTyped EditProofsHeap EditProofsComments EditProofsSeq EditProofsBlocks EditProofsSetRequire EditProofs2Blocks EditProofs2Inv EditProofs2Refine.
 
 (* Every operation that does not sort blocks refines its documented step on the keyed
    collections: same error result, and the abstraction of the new typed lists is the step
@@ -36,21 +37,43 @@ Theorem C08_sort_blocks_refines_coherent : forall f,
 Proof. exact sort_blocks_refines_coherent. Qed.
 Print Assumptions C08_sort_blocks_refines_coherent.
 
-(* edits_refine_keyed_spec over sequences, for the operations whose coherence is proved
-   ([coh_op], Modfile/EditProofsSeq.v): starting from a Coherent file, a run that does not
-   panic ends in a Coherent file whose typed lists and per-operation errors are exactly
-   those of the keyed model. *)
-Theorem C08_edits_refine_keyed_spec_partial : forall ops f errs f',
-  Coherent f ->
-  Forall (fun o => coh_op o = true /\ valid_args o = true) ops ->
-  run_ops ops f = RunOk errs f' ->
-  Coherent f' /\ krun ops (abs f) [] = (abs f', errs).
-Proof. exact run_ops_coherent_refines. Qed.
-Print Assumptions C08_edits_refine_keyed_spec_partial.
+(* The three bulk setters refine their documented step: kept entries are the first entry of
+   every requested key, with the requested values, in their old order; the others are removed;
+   the requested keys that were missing follow (in key order); then the de-duplication of
+   SortBlocks.  Side conditions: the C15 invariant (Props/C15.v). *)
+Theorem C08_set_require_refines : forall f l f',
+  distinct_paths (map req_path l) = true -> Coherent f -> RequireSettable f ->
+  set_require f l = Some f' -> abs f' = fst (kstep (SetRequire l) (abs f)).
+Proof. exact set_require_refines. Qed.
+Print Assumptions C08_set_require_refines.
 
-(* edits_refine_keyed_spec: every operation except the three bulk setters ([ref_op]) refines
-   its documented step when the file is Coherent, and so does every sequence of them. *)
+Theorem C08_set_require_separate_indirect_refines : forall f l f',
+  distinct_paths (map req_path l) = true -> Coherent f -> BlockIdsOk (fsyn f) -> RequireSettable f ->
+  set_require_separate_indirect f l = Some f' -> abs f' = fst (kstep (SetRequireSeparateIndirect l) (abs f)).
+Proof. exact set_require_separate_refines. Qed.
+Print Assumptions C08_set_require_separate_indirect_refines.
+
+Theorem C08_set_use_refines : forall f (l : list (str * str)) f',
+  distinct_paths (map fst l) = true -> Coherent f ->
+  set_use f l = Some f' -> abs f' = fst (kstep (WSetUse l) (abs f)).
+Proof. exact set_use_refines. Qed.
+Print Assumptions C08_set_use_refines.
+
+(* edits_refine_keyed_spec, one step: EVERY operation (all 37) applied to a state satisfying the
+   C15 invariant (Coherent, distinct block identities, no line with the comment shape of
+   finding K9) refines its documented step on the keyed collections. *)
 Theorem C08_edits_refine_keyed_spec_step : forall o f,
+  valid_args o = true -> Coherent f -> BlockIdsOk (fsyn f) -> HeapSettable (fsyn f) ->
+  match apply o f with
+  | ROk f' => kstep o (abs f) = (abs f', false)
+  | RErr f' => f' = f /\ snd (kstep o (abs f)) = true
+  | RPanic => True
+  end.
+Proof. intros o f Hv Hc Hb Hs. exact (apply_refines_inv o f Hv (Build_EditInv f Hc Hb Hs)). Qed.
+Print Assumptions C08_edits_refine_keyed_spec_step.
+
+(* ... without the two side conditions for every operation other than the bulk setters *)
+Theorem C08_edits_refine_keyed_spec_step_coherent_only : forall o f,
   ref_op o = true -> valid_args o = true -> Coherent f ->
   match apply o f with
   | ROk f' => kstep o (abs f) = (abs f', false)
@@ -58,14 +81,17 @@ Theorem C08_edits_refine_keyed_spec_step : forall o f,
   | RPanic => True
   end.
 Proof. exact apply_refines_coherent. Qed.
-Print Assumptions C08_edits_refine_keyed_spec_step.
+Print Assumptions C08_edits_refine_keyed_spec_step_coherent_only.
 
+(* edits_refine_keyed_spec: every sequence of operations with valid arguments that does not
+   panic, from a state satisfying the invariant, ends in such a state, and its per-operation
+   errors and final typed lists are exactly those of the keyed model. *)
 Theorem C08_edits_refine_keyed_spec : forall ops f errs f',
-  Coherent f ->
-  Forall (fun o => ref_op o = true /\ valid_args o = true) ops ->
+  Coherent f -> BlockIdsOk (fsyn f) -> HeapSettable (fsyn f) ->
+  Forall (fun o => valid_args o = true) ops ->
   run_ops ops f = RunOk errs f' ->
-  Coherent f' /\ krun ops (abs f) [] = (abs f', errs).
-Proof. exact run_ops_refines_but_bulk. Qed.
+  (Coherent f' /\ BlockIdsOk (fsyn f') /\ HeapSettable (fsyn f')) /\ krun ops (abs f) [] = (abs f', errs).
+Proof. exact run_ops_refines_all. Qed.
 Print Assumptions C08_edits_refine_keyed_spec.
 
 (* A later operation sees what an earlier one did: e.g. dropping the retraction that was
@@ -97,10 +123,6 @@ Proof. exact comments_kept_run_ops. Qed.
 Print Assumptions C08_untargeted_lines_keep_comments_run.
 
 (* NOT PROVED here:
-   the equation with [kstep] for SetRequire / SetRequireSeparateIndirect / SetUse (their
-     exact-set consequence is C16_set_*_exact; the equation itself is evaluated by the
-     correspondence run on every case, function EditInv);
    result_parses_strictly (needs the parser/printer round trip of C02/C20);
-   "an untargeted line stays in the tree": follows from C15 coherence for the operations
-     covered there (the line of a live entry is a live line of the tree), not stated
-     separately. *)
+   "an untargeted line stays in the tree": follows from C15 coherence (the line of a live entry
+     is a live line of the tree), not stated separately. *)
